@@ -42,6 +42,10 @@ def configs():
         mimetypes.init()
         for i, k in enumerate(_mime_keys()):
             mimetypes.add_type(k, f".c07m{i}")
+        # ... and that has a private content-encoding suffix and a private suffix alias: a name typed through MORE than its last
+        # suffix exists on every host, whatever the platform's own encodings_map / suffix_map contain
+        mimetypes._db.encodings_map[".c07z"] = "c07z"
+        mimetypes._db.suffix_map[".c07s"] = ".c07m0.c07z"
     def mime_variants():
         # a host database (fresh: nothing of the platform's files) that answers with spellings of the table's MIME types that
         # are NOT table keys -- other case, parameters, blanks -- for extensions the router does not know: whatever the MIME
@@ -104,6 +108,30 @@ def paths(extra=()):
     for n in ("report.pdf", "Notes.DOCX", "bundle.tar.gz", "a.txt", "x.weird", "tool.exe", "noext", "a.c07m0"):
         out += [f"{n}/", f"{n}//", f"{n}/.", f"{n}/..", f"./{n}", f"d/../{n}", f"d//{n}", f"{n}/x", f"{n}\\", f"d\\{n}", f" {n} ", f"{n}?v=1", f"{n}#frag",
                 f"file:///tmp/{n}", f"~/{n}", f"{n}/./"]
+    out += stacked_names()
+    return out
+
+
+def stacked_names():
+    """names whose routing is NOT a function of the last suffix alone: mimetypes peels content-encoding suffixes (encodings_map:
+    .gz .bz2 .xz .br .Z, the private .c07z of the "mime-table" configuration) and rewrites suffix aliases (suffix_map: .tgz .svgz ...)
+    before it types the INNER name, so `minutes.text.br` is supported through the MIME fallback although `.br` is nothing to the
+    router.  Inner names: routable extensions, extensions only the MIME fallback knows (platform database and private ones),
+    unknown ones; suffixes in both cases.  Computed from the interpreter's database, not a list."""
+    db = mimetypes.MimeTypes()
+    encs = sorted(set(db.encodings_map) | {".c07z"})
+    inner = ["minutes-2023.text", "CHANGES.markdown", "page.xhtml", "a.txt", "b.pdf", "c.weird", "noext", "d.c07m0", "e.c07m3", "f.tar"]
+    for k in _mime_keys():
+        for e in sorted(db.guess_all_extensions(k, strict=False))[:2]:
+            inner.append(f"m{len(inner)}{e}")
+    out = []
+    for n in inner:
+        for enc in encs:
+            out.append(n + enc)
+        out.append(n.upper() + encs[len(out) % len(encs)].upper())
+        out.append(n + ".c07z.c07z")
+    for suf in sorted(set(db.suffix_map) | {".c07s"}):
+        out += [f"s{len(out)}{suf}", f"S{len(out)}{suf.upper()}", f"x.text{suf}"]
     return out
 
 
@@ -254,6 +282,7 @@ def member_names():
         for e in exts:
             out.append(f"{d}m{len(out)}.{e}")
     out += ["noext", "docs/.hidden.txt", ".profile", "docs/trailing.", "docs/two.dots.txt", "UPPER.PDF", "dir.txt/inner"]
+    out += [("", "docs/", "a b/c.d/")[i % 3] + n for i, n in enumerate(stacked_names())]
     return out
 
 
